@@ -12,6 +12,7 @@ import (
 	"flag"
 	"fmt"
 	"os"
+	"os/exec"
 	"path/filepath"
 	"sort"
 	"strings"
@@ -334,21 +335,45 @@ func classify(d string) string {
 }
 
 type ReplayFile struct {
-	Property    string    `json:"property"`
-	Oracle      string    `json:"oracle"`
-	Message     string    `json:"message"`
-	Kind        string    `json:"kind"`
-	BaseSeed    uint64    `json:"base_seed"`
-	Index       uint64    `json:"scenario_index"`
-	OrderA      Order     `json:"order_a"`
-	OrderB      Order     `json:"order_b"`
-	Scenario    *Scenario `json:"scenario"`
-	Definition  []string  `json:"definition_calls"`
-	Diff        string    `json:"first_difference"`
-	Original    *Scenario `json:"original_scenario,omitempty"`
-	ObservedA   []string  `json:"observed_a,omitempty"`
-	ObservedB   []string  `json:"observed_b,omitempty"`
-	Explanation string    `json:"explanation,omitempty"`
+	Property    string     `json:"property"`
+	Oracle      string     `json:"oracle"`
+	Message     string     `json:"message"`
+	Kind        string     `json:"kind"`
+	BaseSeed    uint64     `json:"base_seed"`
+	Index       uint64     `json:"scenario_index"`
+	OrderA      Order      `json:"order_a"`
+	OrderB      Order      `json:"order_b"`
+	Scenario    *Scenario  `json:"scenario"`
+	Definition  []string   `json:"definition_calls"`
+	Diff        string     `json:"first_difference"`
+	Original    *Scenario  `json:"original_scenario,omitempty"`
+	ObservedA   []string   `json:"observed_a,omitempty"`
+	ObservedB   []string   `json:"observed_b,omitempty"`
+	Explanation string     `json:"explanation,omitempty"`
+	Batch       *BatchSpec `json:"batch,omitempty"`
+}
+
+// BatchSpec: replay by re-executing a worker's whole scenario sequence up to the failing index
+// (used when the disagreement depends on process state left behind by earlier executions).
+type BatchSpec struct {
+	Seed    uint64 `json:"seed"`
+	Worker  int    `json:"worker"`
+	Workers int    `json:"workers"`
+	Index   uint64 `json:"index"`
+	K       int    `json:"orders_per_scenario"`
+}
+
+func freshReplay(path string) int {
+	cmd := exec.Command(os.Args[0], "-replay", path)
+	cmd.Env = os.Environ()
+	err := cmd.Run()
+	if err == nil {
+		return 0
+	}
+	if ee, ok := err.(*exec.ExitError); ok {
+		return ee.ExitCode()
+	}
+	return 2
 }
 
 func clone(sc *Scenario) *Scenario {
@@ -740,15 +765,31 @@ func main() {
 			if md.kind == "repeat" {
 				rf.Message = fmt.Sprintf("same definition, input and iteration order (%s), different observable on repetition (hidden state): %s", md.a, md.diff)
 			}
-			// must reproduce from the file alone
-			if differsExact(rf) == "" {
-				w.Inconclusive = fmt.Sprintf("scenario %d: minimised disagreement did not reproduce", idx)
-				break
-			}
+			// a replay file must reproduce in a FRESH process from the file alone
 			path := filepath.Join(*replayDir, fmt.Sprintf("C20-%d-%d.json", *seed, idx))
-			b, _ := json.MarshalIndent(rf, "", " ")
 			os.MkdirAll(*replayDir, 0o755)
-			os.WriteFile(path, b, 0o644)
+			write := func() {
+				b, _ := json.MarshalIndent(rf, "", " ")
+				os.WriteFile(path, b, 0o644)
+			}
+			write()
+			if freshReplay(path) != 1 {
+				// hidden state: minimisation ran against a process whose state had already changed;
+				// fall back to the unminimised scenario, then to replaying the whole batch
+				rf.Scenario, rf.Definition, rf.OrderA, rf.OrderB, rf.Diff, rf.Kind = sc, sc.DefinitionCalls(), d.a, d.b, d.diff, d.kind
+				rf.Oracle = "O20-" + d.kind + "-" + classify(d.diff)
+				rf.Message = fmt.Sprintf("same definition and input, different observable (%s) between executions under orders %s and %s: %s", d.kind, d.a, d.b, d.diff)
+				rf.Explanation = "the disagreement depends on state the library keeps between executions in one process; the minimised scenario did not reproduce in a fresh process"
+				write()
+				if freshReplay(path) != 1 {
+					rf.Batch = &BatchSpec{Seed: *seed, Worker: *worker, Workers: *workers, Index: idx, K: k}
+					write()
+					if freshReplay(path) != 1 {
+						w.Inconclusive = fmt.Sprintf("scenario %d: disagreement reproduces neither alone nor as a batch in a fresh process", idx)
+						break
+					}
+				}
+			}
 			w.Violation, w.ReplayPath = rf, path
 			break
 		}
@@ -820,6 +861,28 @@ func doReplay(path string) int {
 	if err := json.Unmarshal(b, &rf); err != nil {
 		fmt.Fprintln(os.Stderr, "bad replay file:", err)
 		return 2
+	}
+	if rf.Batch != nil {
+		bs := rf.Batch
+		fmt.Printf("batch-replaying %s: worker %d of %d up to scenario %d\n", path, bs.Worker, bs.Workers, bs.Index)
+		n := 0
+		for i := 0; ; i++ {
+			idx := uint64(bs.Worker) + uint64(i)*uint64(bs.Workers)
+			if idx > bs.Index {
+				break
+			}
+			rs := simrt.Mix(bs.Seed, 20, idx)
+			sc := Generate(rs)
+			d := check(sc, rs, bs.K, nil, &n)
+			observe(sc, Order{Base: "asc"}, nil)
+			if idx == bs.Index && d != nil {
+				fmt.Println("  first difference:", d.diff)
+				fmt.Printf("VIOLATION property=C20 replay=%s\n", path)
+				return 1
+			}
+		}
+		fmt.Println("the batch shows no disagreement on this tree")
+		return 0
 	}
 	fmt.Printf("replaying %s: property=C20 oracle=%s\n", path, rf.Oracle)
 	for _, c := range rf.Definition {
